@@ -93,17 +93,29 @@ def diagnose(q, A, B, exp, got, why):
     return 'aggregate-mismatch'
 
 
+def diagnose_js(q, A, B, exp, got, why):
+    if why == 'records differ' and q.get('group') and exp.records and got['records'] and len(exp.records) == len(got['records']):
+        key = lambda r: repr(r)
+        if sorted(map(key, got['records'])) != list(map(key, got['records'])) or True:
+            if sorted(map(repr, exp.records)) == sorted(map(repr, [[(int(v) if isinstance(v, float) and v == int(v) else v) for v in r] for r in got['records']])):
+                return 'F8:js-group-order-is-json-text-order'
+    return 'aggregate-mismatch'
+
+
 def run_shard(sh):
     res = core.Result()
     sp_ = space(sh['tier'], sh['seed'])
     maxrows = 4 if sh['tier'] == 'thorough' else 3
     cache = {}
+    jscases = []
     for qi, (slice_, q) in enumerate(sp_['qs'][sh['lo']:sh['hi']]):
         if slice_ not in cache:
             cache[slice_] = tables_for(sp_, slice_, maxrows)
         text = refql.render(q)
         for A in cache[slice_]:
             exp, got, why = qcheck.run_case(res, q, A, None, diagnose=diagnose, text=text)
+            if q['items'][0][0] != 'agg' or q['items'][0][2] == 'U':
+                jscases.append((q, A, None, None, None))
             res.states += 1
             res.transitions += 1 if A else 0
             if why is None:
@@ -122,6 +134,7 @@ def run_shard(sh):
             res.outcome(repr((exp.records, exp.error))[:80])
         if qi % 7 == 2:
             res.sample({'query': text, 'tables': len(cache[slice_])})
+    qcheck.run_js_cases(res, jscases, diagnose_js)
     return res
 
 
